@@ -283,7 +283,7 @@ impl<'a, 'tcx> H<'a, 'tcx> {
             K::Block(b, _) => {
                 out.kstr("k", "Block");
                 self.common(out, e);
-                if matches!(b.rules, hir::BlockCheckMode::UnsafeBlock(_)) {
+                if matches!(b.rules, hir::BlockCheckMode::UnsafeBlock(hir::UnsafeSource::UserProvided)) {
                     out.kbool("unsafe", true);
                 }
                 out.key("b");
